@@ -9,7 +9,8 @@ from codec_gen import *
 class C14(vlib.Check):
     pid = 'C14'
     group = 'codec'
-    rule = ('directed: each of 256 byte values in each position of a 3-byte group with boundary neighbours, '
+    rule = ('directed: each of 256 byte values in each position of a 3-byte group with boundary neighbours, as the final group and as a '
+            'non-final group (extra tail byte), '
             'all lengths 0..70, null/zero-size; seeded random arrays; each array goes through hex_enc, b64_enc, '
             'their buffer overloads, and the decoders applied to the reference encoding (round trip). '
             'non-trivial = non-empty input; distinct = distinct case line')
@@ -25,6 +26,9 @@ class C14(vlib.Check):
                     g = [nb, nb, nb]
                     g[pos] = v
                     arrays.append(bytes(g))
+                    # the same group followed by a tail byte: it then goes through the
+                    # full-group loops of encoder and decoder, not only the final-group code
+                    arrays.append(bytes(g) + bytes([nb]))
         for n in range(0, 71):
             arrays.append(rand_bytes(rng, n))
         nrand = 300 if tier == 'quick' else 6000
